@@ -33,6 +33,9 @@ func runC07(r *Run) {
 	for i := 0; i < r.n(60, 1000) && !r.c14Full(); i++ {
 		r.c07LateReply(i)
 	}
+	for i := 0; i < r.n(40, 600) && !r.c14Full(); i++ {
+		r.c07Unsent(i)
+	}
 	// varint issuer: differential on many counters
 	for i := 0; i < r.n(3000, 100000); i++ {
 		var n uint64
@@ -173,7 +176,22 @@ func (r *Run) c07Scenario(sc int) {
 				src, t = old.src, old.t
 			}
 		}
-		if (kind >= 3 && kind <= 8) || kind == 12 {
+		omitT := false
+		if r.rng.Intn(14) == 0 {
+			// two datagrams: the right transaction ID from ANOTHER host (ignored), directly followed by a datagram
+			// from the queried address that has no `t` key at all: state left by the first must not complete the query
+			ip := append(net.IP{}, q.dst.IP...)
+			ip[len(ip)-1] ^= 2
+			var m0 [20]byte
+			r.rng.Read(m0[:])
+			conn.inject(mkReply(string(q.t), bD("id", bB(m0[:]))).enc(), udp(ip, q.dst.Port))
+			conn.waitIdle(5 * time.Second)
+			r.op(fmt.Sprintf("TXN in %s %s", hx([]byte(dht.NewAddr(udp(ip, q.dst.Port)).String())), hx(q.t)), "none")
+			events = append(events, fmt.Sprintf("inject from %s t=%x (right ID, other host)", udp(ip, q.dst.Port), q.t))
+			src, t, omitT, kind = q.dst, nil, true, 13
+			r.hist("datagram-kind/13-no-t-key-after-foreign-reply")
+		}
+		if (kind >= 3 && kind <= 8) || kind == 12 || kind == 13 {
 			nearMiss++
 		}
 		var marker [20]byte
@@ -189,6 +207,9 @@ func (r *Run) c07Scenario(sc int) {
 			msg = bD("t", bB(t), "r", bD("id", bB(marker[:])))
 		default:
 			msg = mkReply(string(t), bD("id", bB(marker[:])))
+		}
+		if omitT {
+			msg.del("t")
 		}
 		r.hist(fmt.Sprintf("datagram-kind/%d", kind))
 		conn.inject(msg.enc(), src)
@@ -427,4 +448,111 @@ func (r *Run) c07LateReply(i int) {
 	if i < 1 {
 		r.sample(events)
 	}
+}
+
+
+// Queries that end without ever reaching the wire (socket error, cancelled before the send) while younger
+// queries are outstanding: whatever is rolled back for the unsent one, the IDs of outstanding queries stay
+// pairwise different - the next query must not be given the ID of one that is still waiting.
+func (r *Run) c07Unsent(i int) {
+	conn := newFakeConn(nil)
+	cfg := baseConfig(conn)
+	cfg.QueryResendDelay = func() time.Duration { return time.Hour }
+	s, err := dht.NewServer(cfg)
+	if err != nil {
+		panic(err)
+	}
+	defer s.Close()
+	dead := udp(net.IP{198, 51, 100, 9}, 7009)
+	gate := make(chan struct{})
+	var held atomic.Int32
+	conn.failWrite = func(n int, p []byte, addr net.Addr) error {
+		if ua, _ := addr.(*net.UDPAddr); ua != nil && sameUDP(ua, dead) {
+			held.Add(1)
+			<-gate
+			return errors.New("sendto: network is unreachable")
+		}
+		return nil
+	}
+	var events []string
+	type oq struct {
+		t      string
+		cancel context.CancelFunc
+		done   chan dht.QueryResult
+		dst    *net.UDPAddr
+	}
+	var out []oq
+	issue := func(dst *net.UDPAddr) (oq, bool) {
+		ctx, cancel := context.WithCancel(context.Background())
+		q := oq{cancel: cancel, done: make(chan dht.QueryResult, 1), dst: dst}
+		w0 := conn.numWrites()
+		go func() { q.done <- s.Query(ctx, dht.NewAddr(dst), "ping", dht.QueryInput{NumTries: 1}) }()
+		if !conn.waitWrites(w0+1, 5*time.Second) {
+			cancel()
+			return q, false
+		}
+		q.t = string(parseDgram(conn.writes()[w0]).t)
+		return q, true
+	}
+	live := udp(net.IP{198, 51, 100, byte(20 + r.rng.Intn(100))}, 7100)
+	rounds := 1 + r.rng.Intn(3)
+	for k := 0; k < rounds; k++ {
+		// Q1: to the dead address, its only write is held and will fail
+		h0 := held.Load()
+		ctx1, cancel1 := context.WithCancel(context.Background())
+		done1 := make(chan dht.QueryResult, 1)
+		go func() { done1 <- s.Query(ctx1, dht.NewAddr(dead), "ping", dht.QueryInput{NumTries: 1}) }()
+		if !waitFor(func() bool { return held.Load() > h0 }, 5*time.Second) {
+			cancel1()
+			r.violation("query did not reach the socket write", events)
+			close(gate)
+			return
+		}
+		events = append(events, "query Q1 issued; its only socket write is held and will fail")
+		// younger queries are issued and stay outstanding (same or different destinations)
+		for j := 0; j < 1+r.rng.Intn(2); j++ {
+			dst := live
+			if r.rng.Intn(2) == 0 {
+				dst = udp(net.IP{198, 51, 100, byte(130 + r.rng.Intn(100))}, 7200+j)
+			}
+			q, ok := issue(dst)
+			if !ok {
+				r.violation("query sent no datagram", events)
+				cancel1()
+				close(gate)
+				return
+			}
+			events = append(events, fmt.Sprintf("younger query to %s outstanding with t=%x", dst, q.t))
+			out = append(out, q)
+		}
+		gate <- struct{}{}
+		res1 := <-done1
+		cancel1()
+		events = append(events, fmt.Sprintf("Q1's write fails; Q1 returns err=%v writes=%d", res1.Err, res1.Writes))
+		// the next query
+		q3, ok := issue(live)
+		if !ok {
+			r.violation("query sent no datagram", events)
+			close(gate)
+			return
+		}
+		events = append(events, fmt.Sprintf("next query to %s gets t=%x", live, q3.t))
+		for _, o := range out {
+			if o.t == q3.t {
+				r.violation("two outstanding queries share a transaction ID", append([]string{}, events...))
+			}
+		}
+		out = append(out, q3)
+	}
+	for _, o := range out {
+		o.cancel()
+		select {
+		case <-o.done:
+		case <-time.After(5 * time.Second):
+			r.violation("cancelled query did not return", events)
+		}
+	}
+	r.hist(fmt.Sprintf("unsent-then-next/rounds=%d", rounds))
+	r.count(fmt.Sprint(events), true)
+	r.Result.TracesValidated++
 }
